@@ -40,6 +40,9 @@ def run(prog, tier):
     check_declared_range(R, prog)
     from ._shared import check_no_shared_state
     check_no_shared_state(R, prog, P, ['cnfgen.formula'], 120)
+    from ._families import borrow as _borrow
+    from . import c09 as _c09
+    _borrow(R, P, "SHUFFLE", prog, lambda r, p: _c09.check_table(r, p, p.func(_c09.MOD, "Shuffle")), floor=1, only=lambda t: "declares" in t or "N variables" in t or "update_variable_number" in t)
     return R
 
 
